@@ -1,3 +1,43 @@
 import Driver.Common
-/-! Model driver for C18 — not built yet. -/
-def main (_args : List String) : IO Unit := pure ()
+import Logrange.Model.Forwarder
+import Logrange.Generated.C18
+/-! Model driver for C18 (forwarder worker loop). Request:
+
+`fw <N0> <start> <label>*` with labels `qt` (transport error), `qs` (server error), `qe` (empty result),
+`p<k>a` / `p<k>r` (page of up to k events, sink accepts / rejects), `P` (persist tick), `S` (stop gracefully,
+final persist, restart), `G` (cancel, final persist, restart), `C` (crash, restart from what is persisted),
+`g<k>` (the partition grows by k).
+Answer: `deliv=<a-b;c-d;…|-> pos=<n> desc=<n> persisted=<n>` (accepted batches `[a,b)` in order).
+-/
+open Go Driver Logrange.Forwarder
+
+def genCfg : Cfg :=
+  { setAfterAccept := Logrange.Generated.C18.setPositionAfterAccept,
+    retryRejected := Logrange.Generated.C18.requestReplacedOnlyAfterAccept && Logrange.Generated.C18.failuresRetry }
+
+def parseLabel (t : String) : Option L :=
+  if t == "qt" then some .qTransport
+  else if t == "qs" then some .qServer
+  else if t == "qe" then some .qEmpty
+  else if t == "P" then some .persist
+  else if t == "S" then some .stop
+  else if t == "G" then some .graceful
+  else if t == "C" then some .crash
+  else if t.startsWith "g" then (t.drop 1).toString.toNat?.map L.grow
+  else if t.startsWith "p" && t.endsWith "a" then ((t.drop 1).dropEnd 1).toString.toNat?.map (L.page · true)
+  else if t.startsWith "p" && t.endsWith "r" then ((t.drop 1).dropEnd 1).toString.toNat?.map (L.page · false)
+  else none
+
+def showS (s : S) : String :=
+  let d := if s.batches.isEmpty then "-" else ";".intercalate (s.batches.map (fun (a, b) => s!"{a}-{b}"))
+  s!"deliv={d} pos={s.pos} desc={s.desc} persisted={s.persisted}"
+
+def step (_ : Unit) (toks : List String) : Unit × String :=
+  match toks with
+  | "fw" :: n :: start :: labels =>
+    match n.toNat?, start.toNat?, labels.mapM parseLabel with
+    | some n, some st, some ls => ((), showS (run genCfg (init n st) ls))
+    | _, _, _ => ((), "bad-op")
+  | _ => ((), "bad-op")
+
+def main (args : List String) : IO Unit := Driver.run step () args
